@@ -1089,6 +1089,7 @@ package router
 //@   ensures [C13:reassembly-state-consistent] gcc != nil && ccInv(gcc) && inb >= 0
 //@   ensures [C13:returns-only-when-starved] action == gnet.None ==> (gcc.buffer == nil ? inb == 0 : inb < len(gcc.buffer) - gcc.readN)
 //@   callsite Write?: [C13:over-limit-answer-is-one-frame] len(arg1) >= 14 && len(arg1) - 2 <= 65535 && BE16(arg1, 0) == uint16(len(arg1) - 2)
+//@   callsite Write?: [C13,C03:refused-answer-goes-to-the-connection-that-asked] arg0 == c
 //@   ghost gM *dnsmsg.Msg = nil
 //@   ghost gB pool.Buffer = nil
 //@   ghost gCCR int32 = 0
@@ -1368,6 +1369,7 @@ package router
 //@   callsite handleServerReq?: [C03:this-query-is-handled] arg1 == m && arg2 == rc
 //@   callsite mustHaveRespB?: [C03:the-answer-to-this-query-is-what-is-sent] arg0 == m && arg1 == rc.Response.Msg
 //@   callsite Write?: [C03:the-packed-response-is-the-body] arg1 == gB && len(arg1) >= 12
+//@   callsite Write?: [C03:answer-goes-to-the-request-that-asked] arg0 == w
 
 // gnetServer.OnOpen (gnet TCP listener): every new connection is charged 3 to its remote address; it stays open
 // exactly when the limiter admitted it.
@@ -1658,6 +1660,7 @@ package router
 //@   callsite netAddr2NetipAddr: [C15:address-of-this-connection] true
 //@   callsite mustHaveRespB: [C13,C15:refused-answer] arg0 == gM && arg1 == nil && arg2 == dnsmsg.RCodeRefused && arg3 == true
 //@   callsite Write: [C13:over-limit-or-refused-by-the-limiter] arg1 == gB && len(arg1) >= 14 && BE16(arg1, 0) == uint16(len(arg1) - 2)
+//@   callsite Write: [C13,C03:refused-answer-goes-to-the-connection-that-asked] arg0 == c
 //@   callsite go: [C13,C15:refused-query-not-handled] gCC <= s.maxConcurrent && nAsk == 1 && gAdm == nil
 //@   callsite go: [C03,C20:each-query-goroutine-has-its-own-variables] capturesVar(m) && capturesVar(rc) && !capturesLoopVar(m) && !capturesLoopVar(rc)
 // every frame of a connection is read through the ONE buffered reader made for it (what it has read ahead -
